@@ -329,6 +329,6 @@ def get_rsvd""", 'C03-R1'),
             offset = 0
             data = bytearray""", 'C03-R4'),
     ('tt4-wipe-beyond-file', 'nfc.tag.tt4', "            while offset < self.capacity:", "            while offset < self.capacity + 16:", 'C03-R4'),
-    ('tt3-writes-block-0', 'nfc.tag.tt3', "            for i in range(1, last_block_number, attributes['nbw']):", "            for i in range(0, last_block_number, attributes['nbw']):", 'C03-R4'),
+    ('tt3-writes-block-0', 'nfc.tag.tt3', "            for i in range(1, last_block_number, nbw):", "            for i in range(0, last_block_number, nbw):", 'C03-R4'),
 ]
 MUTANTS = [m for m in MUTANTS if m[4] != 'C03-NONE']
